@@ -731,7 +731,7 @@ def mutate_deep(rng, only=None):
 
 
 # ----------------------------------------------------------------------------------------------- C02: digraphs across an import tree
-def graph_case(n, edges, place, diamond, rng, twin=False):
+def graph_case(n, edges, place, diamond, rng, twin=False, cp_targets=False):
     """Actions 0..n-1, action a lives in place[a] (0 = native, 1 = M, 2 = L; the native schema imports M, M imports L,
     and the native schema imports L as well when `diamond` or when an edge needs it); edge (a, b): a depends on b.
     An edge to an action of the same schema or of a (transitively) imported one is a comparison in a's checkpoint; an
@@ -750,7 +750,9 @@ def graph_case(n, edges, place, diamond, rng, twin=False):
                 "otypes": [{"id": 0, "name": 100, "attrs": [{"name": i, "kind": ("F", S.FIELD_TYPES[i])} for i in range(3)]}],
                 "promises": [], "actions": [], "checkpoints": [], "groups": []}
     sch = {0: empty(), 1: empty(), 2: empty()}
-    ncp = {0: 0, 1: 0, 2: 0}
+    # checkpoint ids of the three schemas do not overlap in half of the graphs (a reference that loses its schema
+    # qualifier then dangles instead of meeting another schema's checkpoint)
+    ncp = {0: 0, 1: 100, 2: 200} if (cp_targets or rng.random() < 0.5) else {0: 0, 1: 0, 2: 0}
 
     def new_cp(loc, deps):
         ncp[loc] += 1
@@ -772,7 +774,7 @@ def graph_case(n, edges, place, diamond, rng, twin=False):
         for Q in sorted(set(place[b] for b in up)):
             # the connection goes onto the action, or -- when the action has a checkpoint of its own -- onto that
             # checkpoint (a connection onto an imported checkpoint: its holders get the added dependency)
-            to = own_cp if (own_cp is not None and rng.random() < 0.5) else ("action", a)
+            to = own_cp if (own_cp is not None and (cp_targets or rng.random() < 0.5)) else ("action", a)
             conns[(Q, P)].append({"to": to, "add": new_cp(Q, [cmp_(Q, b) for b in up if place[b] == Q]), "render_to": None})
     for loc in (0, 1, 2):
         if not sch[loc]["actions"]:
@@ -850,9 +852,27 @@ def c02_nested_cycle_family(ctx):
              if bin(mask).count("1") <= (2 if quick else 4)]
     n_plain = len(graphs)
     graphs = graphs + twins
+    # graphs in which an action of L has a checkpoint of its own (it depends on another action of L) AND an edge to M:
+    # the nested connection goes onto that CHECKPOINT; half of them need the edge to close their cycle
+    def cp_shape(g):
+        n_, edges_, place_ = g
+        return any(place_[a] == 2 and any(x == a and place_[b] == 2 for (x, b) in edges_) and any(x == a and place_[b] == 1 for (x, b) in edges_) for a in range(n_))
+    cpg = [g for g in closing if cp_shape(g)]
+    cpa = [g for g in acyclic if cp_shape(g)]
+    onto_cp = rng.sample(cpg, min(len(cpg), 25 * k)) + rng.sample(cpa, min(len(cpa), 10 * k))
+    # ... and the four-action shape in which such a cycle closes only in the ROOT: native 0 -> L.2 (native reference),
+    # L.2 -> L.3 (own checkpoint of L.2), L.2 -> M.1 (nested connection onto that checkpoint), M.1 -> native 0 (native
+    # connection); M with L alone is acyclic
+    four = []
+    for extra in ([], [(3, 1)], [(0, 3)], [(1, 3)]):
+        four.append((4, [(2, 3), (2, 1), (1, 0), (0, 2)] + extra, (0, 1, 2, 2)))
+        four.append((4, [(2, 3), (2, 1), (1, 0)] + extra, (0, 1, 2, 2)))
+    onto_cp = onto_cp + four * (1 if quick else 3)
+    n_cp_from = len(graphs)
+    graphs = graphs + onto_cp
     items = []
     for gi, (n, edges, place) in enumerate(graphs):
-        case = graph_case(n, edges, place, rng.random() < 0.4, rng, twin=(gi >= n_plain))
+        case = graph_case(n, edges, place, rng.random() < 0.4, rng, twin=(n_plain <= gi < n_cp_from), cp_targets=(gi >= n_cp_from))
         r = {"spelling": "mixed", "shuffle": rng.random() < 0.5, "seed": rng.randrange(1 << 30)}
         doc = render_deep(case, ctx.repo_copy, random.Random(r["seed"]), r["spelling"], r["shuffle"])
         r["imported_files"] = {f["file"]: json.load(open(os.path.join(ctx.repo_copy, "schemas", f["file"] + ".json"))) for f in case["files"].values()}
